@@ -83,6 +83,12 @@ func (s reqScenario) url() string {
 		_, text, _ := slotValue(s.t, slotDecoy, s.jsonList, s.noB64)
 		q.Set("fk", text)
 	}
+	if s.bodyKind != "json" {
+		// decoys: query parameters named like the un-annotated fields (no JSON body carries those here)
+		q.Set("u", "99")
+		q.Set("v", "decoy-v")
+		q.Set("u2", "98")
+	}
 	if len(q) == 0 {
 		return baseURL
 	}
@@ -608,6 +614,14 @@ func (s reqScenario) judge(r *core.Result, exp expect, entry string, out []byte,
 				} else {
 					r.Add("j2t-http|"+s.cell()+"|want:"+want+",got:"+got, "%s: field f is %v, expected %s %v", where, f, want, exp.vals)
 				}
+			}
+		}
+	}
+	// un-annotated fields without a JSON body: no option of this scenario lets them read http parameters
+	if s.bodyKind != "json" && !s.o.ReadFallback && !s.o.Traceback {
+		for i, pv := range plain {
+			if pv != nil && ((pv.T == tbin.STRING && len(pv.S) != 0) || (pv.T != tbin.STRING && pv.T != tbin.STRUCT && pv.I != 0)) {
+				r.Add("j2t-http|unannotated-field"+ifs(s.level != "root", ","+s.level, "")+",body="+s.bodyKind+"|filled-from-http-parameter", "%s: un-annotated field #%d is %v although there is no JSON body and neither fallback nor traceback is set", where, i, pv)
 			}
 		}
 	}
